@@ -30,6 +30,8 @@ static mut ZST_LIVE: i64 = 0;
 static mut ZST_DROPS: u64 = 0;
 
 pub fn reset() {
+    crate::fence::reset();
+    crate::fence::reset_fm();
     unsafe {
         for i in 0..(NEXT_ID as usize).min(MAX_ID) {
             STATE[i] = UNBORN;
